@@ -131,9 +131,11 @@ func VerifH_MQWakeups() {
 	k := symx.Param("consumers", 2)
 	res := make([]verifPopRes, k)
 	ts := make([]symx.ThreadID, k)
+	anyways := make([]bool, k)
 	for i := 0; i < k; i++ {
 		i := i
 		anyway := symx.Bool("anyway")
+		anyways[i] = anyway
 		ts[i] = symx.Go("consumer", func() {
 			if anyway {
 				res[i].item, res[i].err = q.PopAnyway()
@@ -143,7 +145,7 @@ func VerifH_MQWakeups() {
 		})
 	}
 	symx.WaitQuiescent()
-	switch symx.Concrete(symx.Int("scenario"), 0, 2) {
+	switch symx.Concrete(symx.Int("scenario"), 0, 3) {
 	case 0:
 		if symx.Bool("tryClose") {
 			symx.Assert(q.TryClose(), "try-close on an empty queue")
@@ -185,6 +187,27 @@ func VerifH_MQWakeups() {
 			}
 		}
 		symx.Assert(got <= 1, "handed out at most once")
+	case 3: // add, close, then look (ghost observer under the queue's lock) whether the item is still queued:
+		// if it is, it was not taken before the close, and after close only PopAnyway may hand it out
+		if symx.Bool("ctrlItem") {
+			_ = q.AddCtrl(1)
+		} else {
+			_ = q.AddReq(1)
+		}
+		q.Close()
+		q.lock.Lock()
+		remaining := q.ctrlList.Len() + q.reqList.Len()
+		q.lock.Unlock()
+		symx.WaitQuiescent()
+		for i := 0; i < k; i++ {
+			symx.MustFinish(ts[i], "add then close releases every blocked consumer")
+			if res[i].err == nil {
+				symx.Assert(res[i].item.(int) == 1, "the item added")
+				symx.Assert(anyways[i] || remaining == 0, "after close Pop fails even if items remain: an item still queued when Close returned is handed out by PopAnyway only")
+			} else {
+				symx.Assert(res[i].err == ErrClosed, "closed")
+			}
+		}
 	}
 	symx.Reach("end")
 }
